@@ -17,13 +17,12 @@ RULE = ("(writer) one case = one CreateArchive call whose bytes must equal, byte
 PROVED = ("C02_writer_conforms: for ALL inputs, create ok => the bytes are the reference encoding of a strict description (StrictWF: tags "
           "and lengths tile the header, name table in index order at recorded offsets, 4-aligned contiguous zero-padded blocks whose "
           "tag/length match the entry, last block ends at EOF, names strictly increasing in the _stricmp order); C02_strictWF_sound "
-          "(the executable check implies StrictWF); C02_binary_search (+ _sound): on every strict description binary search by the "
+          "+ C02_strictWF_complete (the executable check decides StrictWF exactly; the encoder is injective on strict descriptions); C02_binary_search (+ _sound): on every strict description binary search by the "
           "unsigned case-insensitive order finds member i under every case flipping and nothing else; C02_reader_accepts_ref: for "
           "EVERY well-formed description (unused slots, slack, any compression codes, size fields unrelated to stored length) "
           "Vol.open (refEncode d) returns the same names, sizes, kinds and stored payloads; spec order = library order away from 0xFF")
 PARTIAL = ("C02_writer_conforms assumes names without NUL/0xFF bytes and a header below 2 GiB; C02_reader_accepts_ref assumes the header "
-           "below the 1 GiB allocation cap (proved false above it: open_refEncode_alloc); completeness of the executable strictWF "
-           "(StrictWF => strictWF = true) is not proved, only observed on every archive of the run; decompression of LZH members "
+           "below the 1 GiB allocation cap (proved false above it: open_refEncode_alloc); decompression of LZH members "
            "belongs to C04")
 TRUSTED = c01.TRUSTED
 ASSUMPTIONS = ["names are non-empty, contain no NUL or '/' and are not '.' or '..' (what a file name can be)"]
